@@ -13,7 +13,8 @@ taddons.context()).  Two monitors, both at the boundary "arguments received by t
 
 * ui_history (console prompt): the quote-built line is put into a real CommandEdit/CommandBuffer on the same master,
   a random history of key presses that leaves the text identical is applied (tab / shift-tab completion at the end
-  or in the middle followed by retyping the cut-off rest, cursor movement, backspace + retype), then the buffer text
+  or in the middle followed by retyping the cut-off rest, cursor movement, backspace + retype, <up>/<down> walks through
+  the real CommandHistory addon that end at the newest position), the prompt text must still be the line, then the buffer text
   is executed on the master's CommandManager: the probe must receive exactly the original arguments, and
   parse_partial/execute of that text must give the same result on a fresh CommandManager that never saw the UI
   operations (no dependence on earlier operations on the same text).
@@ -35,13 +36,14 @@ ENGINE = "direct"
 TECHNIQUE = "differential run of the real command executor against a reference splitter / identity"
 BUDGET = {"quick": (8_000, 16), "thorough": (400_000, 200)}
 WORKERS = {"quick": 2, "thorough": 16}
-REQUIRED = ["quoted_roundtrip", "raw_split.count", "raw_split.value", "ui_history.execute", "ui_history.fresh_manager_agrees"]
+REQUIRED = ["quoted_roundtrip", "raw_split.count", "raw_split.value", "ui_history.text_preserved", "ui_history.execute", "ui_history.fresh_manager_agrees"]
 RULE = (
     "case = one command line for a probe command taking *args: str (ui: also a fixed two-argument probe). 57%: 1-4 random strings (len<=8 pieces) over "
     "{letters, space, tab, CR, LF, ', \", backslash, 2-char escapes like \\n \\x22 \\u00e9, malformed \\x/\\u, e-acute, astral, "
     "VT/NBSP/ideographic space, empty} each quoted with command_lexer.quote and joined by 1-3 blanks/tabs; 28%: raw tokens "
     "(bare / quoted / word+quoted / unterminated) joined likewise; 15%: a quote-built line edited in a real console CommandEdit by "
-    "1-8 text-preserving key-press steps (tab, shift-tab, left/right, home/end, backspace+retype, tab in the middle+retype) and then "
+    "1-8 text-preserving key-press steps (tab, shift-tab, left/right, home/end, backspace+retype, tab in the middle+retype, up / ctrl-p "
+    "and down / ctrl-n walks through the real command-history addon with empty, unrelated or matching history) and then "
     "executed from the buffer, compared also with a fresh CommandManager. distinct = (workload, #args, set of character-class "
     "features over all args, separator kind / set of key-press step kinds); non-trivial = some argument is empty or contains whitespace, a quote, a "
     "backslash or a non-ASCII character (quoted workload) / some token is quoted or mixed (raw workload)"
@@ -71,6 +73,7 @@ PIECES = [
 W_PIECES = [6, 4, 3, 2, 2, 2, 2, 2, 2, 2, 8, 4, 4, 2, 1, 6, 6, 5, 2, 2, 1, 2, 1, 1, 1, 1, 1, 1, 1, 1, 1, 1, 3, 2, 1, 1, 1, 1, 1, 1, 1]
 assert len(PIECES) == len(W_PIECES)
 PLAIN = ["a", "b", "x", "Z", "0", "-", "=", ".", "/", "é", "\U0001f600"]
+BACKSLASHY = ["C:", "\\new", " folder", "\\table.txt", "\\", "\\\\", "\\x41", "\\101", "\\u00e9", "\\N{BULLET}", "\\d+", "\\.", "a", "\\temp", "\\r", "dir\\"]
 
 
 def features(s: str) -> set:
@@ -173,17 +176,38 @@ def make_manager():
     probe = Probe()
     add_probes(cm, probe)
     add_probes(tctx.master.commands, probe)  # the manager the console prompt (CommandBuffer) talks to
+    # the real command history addon (<up>/<down> in the prompt talk to it); no history file is written
+    from mitmproxy.addons import command_history
+
+    ch = command_history.CommandHistory()
+    tctx.master.addons.add(ch)
+    tctx.options.update(command_history=False)
+    HISTORY["addon"] = ch
     return tctx, cm, probe
 
 
+HISTORY = {"addon": None}
+
+
+def reset_history(entries):
+    """Fresh history state for one case (the entries go in through the addon's own command)."""
+    ch = HISTORY["addon"]
+    ch.history = []
+    ch.set_filter("")
+    for e in entries:
+        ch.add_command(e)
+
+
 SIZE = (80,)
-UI_STEPS = ["tab", "shift tab", "tab tab", "left-right", "home-end", "backspace-retype", "mid-tab-retype", "delete-retype"]
+UI_STEPS = ["tab", "shift tab", "tab tab", "left-right", "home-end", "backspace-retype", "mid-tab-retype", "delete-retype", "up", "up-down", "up-down", "down-after-up"]
 
 
-def ui_history(r, edit, line, first_arg_pos):
-    """Apply 1-8 key-press steps each of which leaves the prompt text identical. Returns the step kinds used."""
+def ui_history(r, edit, line, first_arg_pos, n_matching=0):
+    """Apply 1-8 key-press steps each of which leaves the prompt text identical. Returns the step kinds used.
+    n_matching: number of history entries that start with the line (then a lone <up> shows one of them)."""
     kinds = []
     n = len(line)
+    filter_active = False
     for _ in range(r.choice([1, 1, 2, 3, 5, 8])):
         k = r.choice(UI_STEPS)
         kinds.append(k)
@@ -201,6 +225,20 @@ def ui_history(r, edit, line, first_arg_pos):
         elif k == "home-end":
             edit.keypress(SIZE, r.choice(["home", "ctrl a"]))
             edit.keypress(SIZE, r.choice(["end", "ctrl e"]))
+        elif k == "up" and n_matching == 0:
+            # no history entry starts with the prompt text: the prompt keeps its text
+            edit.keypress(SIZE, r.choice(["up", "ctrl p"]))
+            filter_active = True
+        elif k in ("up", "up-down"):
+            j = r.randint(1, 3)
+            for _ in range(j):
+                edit.keypress(SIZE, r.choice(["up", "ctrl p"]))
+            for _ in range(j):  # back down to the text the history walk started from
+                edit.keypress(SIZE, r.choice(["down", "ctrl n"]))
+            filter_active = True
+        elif k == "down-after-up":
+            if filter_active:  # at the newest position <down> re-displays the text the walk started from
+                edit.keypress(SIZE, r.choice(["down", "ctrl n"]))
         elif k in ("backspace-retype", "delete-retype", "mid-tab-retype"):
             if n <= first_arg_pos:
                 continue
@@ -275,23 +313,43 @@ def case_ui(ctx, r, tctx, probe):
 
     master_cm = tctx.master.commands
     two = r.random() < 0.25
-    args = [gen_string(r) if r.random() < 0.5 else "".join(r.choice(PLAIN + [" ", "'", '"']) for _ in range(r.choice([0, 1, 2, 4]))) for _ in range(2 if two else r.choice([1, 1, 2, 3, 4]))]
+    def gen_arg():
+        k = r.random()
+        if k < 0.45:
+            return gen_string(r)
+        if k < 0.6:  # texts with backslash sequences that look like escapes (paths, regexes)
+            return "".join(r.choice(BACKSLASHY) for _ in range(r.choice([1, 2, 3, 5])))
+        return "".join(r.choice(PLAIN + [" ", "'", '"']) for _ in range(r.choice([0, 1, 2, 4])))
+
+    args = [gen_arg() for _ in range(2 if two else r.choice([1, 1, 2, 3, 4]))]
     cmd = "probe.two" if two else "probe.cmd"
     sep = " " if r.random() < 0.8 else gen_sep(r)
     line = sep.join(command_lexer.quote(x) for x in [cmd, *args])  # what console.command does to pre-fill the prompt
+    # command history: empty / unrelated entries / entries that start with the prompt text
+    hk = r.choice(["empty", "empty", "unrelated", "unrelated", "matching", "mixed"])
+    entries = []
+    if hk in ("unrelated", "mixed"):
+        entries += [r.choice(["view.flows.resolve @all", "set anticache true", "probe.cmd other\\n", "probe.two a b", "x" + line])  for _ in range(r.choice([1, 2, 4]))]
+    if hk in ("matching", "mixed"):
+        entries += [line + r.choice(["", " more", "x"]) for _ in range(r.choice([1, 2, 3]))]
+        r.shuffle(entries)
+    reset_history(entries)
+    n_matching = sum(e.startswith(line) for e in entries)
     edit = commander.CommandEdit(tctx.master, line)
-    kinds = ctx.guard(ui_history, r, edit, line, len(cmd), what="ui keypress history")
+    kinds = ctx.guard(ui_history, r, edit, line, len(cmd), n_matching, what="ui keypress history")
     f = set().union(*(features(a) for a in args))
     if kinds is None:
         ctx.case(("ui", "exception"), nontrivial=True)
         return
     text = edit.get_edit_text()
-    sig = ("ui", cmd, len(args), tuple(sorted(f & {"empty", "sp", "tab", "nl", "sq", "dq", "bs", "uni"})), tuple(sorted(set(kinds))))
-    sample = {"line": line, "args": args, "keys": kinds}
+    sig = ("ui", cmd, min(len(args), 3), tuple(sorted(f & {"empty", "sp", "tab", "nl", "sq", "dq", "bs", "esc", "badesc", "uni"})), (tuple(sorted(set(kinds))) if len(set(kinds)) <= 2 else ("many", len(set(kinds)), any(k.startswith(("up", "down")) for k in kinds))), hk)
+    sample = {"line": line, "args": args, "keys": kinds, "history": entries}
+    ctx.count("ui_history.text_preserved")
     if text != line:
-        # not a text-preserving history after all (e.g. tab expansion of the lexer shows up in a completion): nothing to judge
-        ctx.count("ui_history.text_changed_skipped")
-        ctx.case(sig + ("text-changed",), nontrivial=False)
+        # every step re-displays the very text it started from (completion without candidates, cursor movement, delete+retype,
+        # history walk back to the newest position): a different prompt text means the command line was rewritten
+        ctx.violation("ui_history-prompt-text-changed", {"line": line, "text_after": text, "keys": kinds, "history": entries}, None)
+        ctx.case(sig + ("text-changed",), nontrivial=True, sample=sample)
         return
     out = ctx.guard(execute, master_cm, probe, text, what=text)
     if out is None:
